@@ -17,7 +17,7 @@ theorem C09_no_panic (c : Cfg) (hx : NoExtractorPanic c) (roots : List (Node × 
 /-- With errors not fatal (and no limit / cancellation), NO set of filesystem faults fails the scan.
 (False before fixes b4e342f8 and 481727ce: a failing lazy size stat, resp. an unreadable parent
 `.gitignore`, failed the whole scan.) -/
-theorem C09_nonfatal (c : Cfg) (hb : Benign c) (roots : List (Node × Faults)) (ho : ∀ rf ∈ roots, GiOK c rf.1) :
+theorem C09_nonfatal (c : Cfg) (hb : Benign c) (roots : List (Node × Faults)) (ho : GiOK c) :
     (run c roots).err = .none :=
   (run_spec c hb roots ho).1
 
@@ -36,7 +36,7 @@ theorem C09_contained (c : Cfg) (f : Faults) (hg : NoGiFaults f) (above : List G
 /-- Surfacing: in a benign scan the status of extractor `e` for a root is `failed` or `partial` exactly
 when one of its attempts there could not open / stat its file or its `Extract` returned an error, and it
 is `partial` exactly when, in addition, one of its invocations returned inventory. -/
-theorem C09_surfaced (c : Cfg) (hb : Benign c) (roots : List (Node × Faults)) (ho : ∀ rf ∈ roots, GiOK c rf.1) :
+theorem C09_surfaced (c : Cfg) (hb : Benign c) (roots : List (Node × Faults)) (ho : GiOK c) :
     (run c roots).statuses = roots.flatMap fun (r, f) => (List.range c.nExt).map fun e => (e, statusSpec c f r e) :=
   (run_results c hb roots ho).2
 
